@@ -445,3 +445,86 @@ impl Counters {
         Value::Object(m)
     }
 }
+
+// ---------------------------------------------------------------------------------------
+// aborts of the subject (non-unwinding panics: a violated get_unchecked precondition, a panic in
+// a destructor) cannot be caught; a signal handler turns them into a verdict with the case the
+// aborting thread was working on.
+
+const CASE_CAP: usize = 256;
+
+thread_local! {
+    static CURRENT_CASE: std::cell::UnsafeCell<([u8; CASE_CAP], usize)> = const { std::cell::UnsafeCell::new(([0u8; CASE_CAP], 0)) };
+}
+
+static mut ABORT_PROP: [u8; 8] = [0; 8];
+static mut ABORT_PATH: [u8; 128] = [0; 128];
+
+/// remember what this thread is about to hand to the subject (cheap: one memcpy)
+#[inline]
+pub fn set_current_case(text: &str) {
+    CURRENT_CASE.with(|c| unsafe {
+        let cell = &mut *c.get();
+        let n = text.len().min(CASE_CAP);
+        cell.0[..n].copy_from_slice(&text.as_bytes()[..n]);
+        cell.1 = n;
+    });
+}
+
+extern "C" {
+    fn signal(signum: i32, handler: usize) -> usize;
+    fn write(fd: i32, buf: *const u8, count: usize) -> isize;
+    fn open(path: *const u8, flags: i32, mode: u32) -> i32;
+    fn close(fd: i32) -> i32;
+    fn _exit(code: i32) -> !;
+}
+
+unsafe fn put(fd: i32, b: &[u8]) {
+    let _ = write(fd, b.as_ptr(), b.len());
+}
+
+extern "C" fn on_abort(sig: i32) {
+    unsafe {
+        let prop_len = ABORT_PROP.iter().position(|&b| b == 0).unwrap_or(0);
+        let path_len = ABORT_PATH.iter().position(|&b| b == 0).unwrap_or(0);
+        // O_WRONLY|O_CREAT|O_TRUNC = 1|64|512
+        let fd = open(ABORT_PATH.as_ptr(), 1 | 64 | 512, 0o644);
+        if fd >= 0 {
+            put(fd, b"{\"property\": \"");
+            put(fd, &ABORT_PROP[..prop_len]);
+            put(fd, b"\", \"signature\": \"process_abort_in_subject\", \"case\": {\"kind\": \"state\", \"signal\": ");
+            put(fd, if sig == 6 { b"6" } else { b"11" });
+            put(fd, b", \"fen\": \"");
+            CURRENT_CASE.with(|c| {
+                let cell = &*c.get();
+                put(fd, &cell.0[..cell.1]);
+            });
+            put(fd, b"\"}}\n");
+            close(fd);
+        }
+        put(1, b"VIOLATION property=");
+        put(1, &ABORT_PROP[..prop_len]);
+        put(1, b" replay=");
+        put(1, &ABORT_PATH[..path_len]);
+        put(1, b"   [the subject aborted the process (non-unwinding panic or fault); case: ");
+        CURRENT_CASE.with(|c| {
+            let cell = &*c.get();
+            put(1, &cell.0[..cell.1]);
+        });
+        put(1, b"]\n");
+        _exit(1);
+    }
+}
+
+pub fn install_abort_handler(prop: &str) {
+    unsafe {
+        let p = prop.as_bytes();
+        ABORT_PROP[..p.len().min(7)].copy_from_slice(&p[..p.len().min(7)]);
+        let path = format!("{}/replays/{}-abort.json", VERIF_ROOT, prop);
+        let _ = std::fs::create_dir_all(format!("{}/replays", VERIF_ROOT));
+        let b = path.as_bytes();
+        ABORT_PATH[..b.len().min(127)].copy_from_slice(&b[..b.len().min(127)]);
+        signal(6, on_abort as usize);
+        signal(11, on_abort as usize);
+    }
+}
